@@ -75,7 +75,7 @@ def run(ctx):
                          ("PipeConn_dev_nowrap.cfg", "OwnReply")])
 
     # ---- leg B
-    nsim = 1000 if T else 250
+    nsim = 1000 if T else 150
     b1 = vlib.tlc_behaviours(ctx, "PipeConn", "PipeConn_gen.cfg", simulate=nsim, depth=250,
                              cfg_text=pc.gen_cfg(MaxCalls="2", MaxFault="0", MaxDup="2", MaxStray="2"),
                              label="generator: 2 callers x 2 calls, reorder / duplicates / strays / cancel (late replies)")
@@ -88,6 +88,25 @@ def run(ctx):
         scripts.append(pc.script_of(b, "b%d" % i, maxcq=BIG, dgram=(i % 2 == 1), idpolicy=IDP[i % len(IDP)],
                                     grace_ms=600 if i % 2 == 1 else 1500, pause=(i % 4 == 0)))
         meta.append(i)
+    # reply, then close at once: when Go's select takes the close arm the reply is still returned — it must carry the
+    # caller's id there too (caller ids differ from the wire ids: policies ffff / random, wire ids start at 0)
+    b3 = vlib.tlc_behaviours(ctx, "PipeConn", "PipeConn_gen.cfg", simulate=200, depth=150,
+                             cfg_text=pc.gen_cfg(GenFocus='"late_fault"', MaxCancel="0", MaxStray="0", MaxDup="0"),
+                             label="generator: reply directly followed by EOF / error / Close")
+    race = [b for b in b3 if pc.reply_then_fault(b["steps"])]
+    rng.shuffle(race)
+    for i, b in enumerate(race[:24 if T else 8]):
+        for k in range(48 if T else 24):
+            dgram = (i + k) % 2 == 1
+            scripts.append(pc.script_of(b, "race%d.%d" % (i, k), maxcq=BIG, dgram=dgram, idpolicy=("ffff", "random")[k % 2],
+                                        kinds=[["eof", "err", "timeout"][(i + k) % 3]], grace_ms=600 if dgram else 1500,
+                                        eof_with_data=(not dgram and k % 4 == 0)))
+            meta.append(None)
+    # ONE query buffer exchanged concurrently on two connections (forward with concurrent > 1): A inside Write while B runs
+    for k in range(6 if T else 2):
+        scripts.append({"name": "shared-buffer.%d" % k, "shared": True, "maxCq": BIG, "dgram": (k % 3 != 2), "qid0": 0,
+                        "idpolicy": "random", "steps": [], "probe": False, "grace_ms": 1500})
+        meta.append(None)
     # wire-id wrap 65535 -> 0 inside the scenario (counter pre-advanced by unrecorded helper exchanges)
     nwrap = 24 if T else 3
     pick = [b for b in behs if sum(1 for s in b["steps"] if s["a"] == "Write") >= 2]
@@ -99,7 +118,7 @@ def run(ctx):
     for k, v in enumerate((["skip", "dup", "abandoned"] * (4 if T else 1))):
         scripts.append(bulk_script("bulk.%s.%d" % (v, k), rng, dgram=False, variant=v))  # stream only (UDP would resend during the bulk)
         meta.append(None)
-    nrand = 600 if T else 80
+    nrand = 600 if T else 50
     for i in range(nrand):
         scripts.append(pc.random_script("rnd%d" % i, callers=rng.choice([2, 3, 4]), calls=rng.choice([2, 3, 4]), maxcq=BIG,
                                         dgram=(i % 2 == 1), seed=rng.randrange(1, 2 ** 31), idpolicy=IDP[i % len(IDP)],
